@@ -222,12 +222,12 @@ def offer_monitor(level, value, obs):
         if CMW in rp:
             if CMW not in ep:
                 ok, why = False, "client_max_window_bits answered but not offered"
-            elif ep[CMW] is not None and (not ep[CMW].isdigit() or int(rp[CMW]) > int(ep[CMW])):
+            elif ep[CMW] is not None and ep[CMW].isdigit() and int(rp[CMW]) > int(ep[CMW]):
                 ok, why = False, "client_max_window_bits=%s above the offered %s" % (rp[CMW], ep[CMW])
         if ok and ep.get(SMW) is not None:
             if SMW not in rp:
                 ok, why = False, "server_max_window_bits offered but missing in the answer"
-            elif not ep[SMW].isdigit() or int(rp[SMW]) > int(ep[SMW]):
+            elif ep[SMW].isdigit() and int(rp[SMW]) > int(ep[SMW]):
                 ok, why = False, "server_max_window_bits=%s above the offered %s" % (rp[SMW], ep[SMW])
         if ok and SNC in ep and SNC not in rp:
             ok, why = False, "server_no_context_takeover offered but missing in the answer"
@@ -448,7 +448,7 @@ def gen_rt(ctx, maxmsg):
                 continue
             p = payload_of(kind, n, r0)
             for s in grid_setups:
-                for cuts in (cutsets if (ctx.thorough or n <= 4096) else cutsets[:4] + ["10,1000"]):
+                for cuts in (["-", "0,0,5"] if n < 6 else cutsets if (ctx.thorough or n <= 4096) else cutsets[:4] + ["10,1000"]):
                     for mode in (modes if n <= 4096 else ("comp", "ws")):
                         if not ctx.thorough and r0.randrange(3) and cuts not in ("-", "10,1000", "0,0,5"):
                             continue
@@ -458,7 +458,7 @@ def gen_rt(ctx, maxmsg):
         r = C.rng("c19-rt-seq", k)
         msgs = []
         for _ in range(r.choice((2, 3, 4))):
-            msgs.append(payload_of(r.choice(kinds), r.choice((6, 7, 20, 100, 600, 3000)), r))
+            msgs.append(payload_of(r.choice(kinds), r.choice((7, 8, 20, 100, 600, 3000)), r))
         msgs.append(msgs[0])
         msgs.append(payload_of("text", 700, r))
         add(s, r.choice(modes), r.choice(cutsets), msgs)
@@ -543,8 +543,8 @@ def eval_rt(line, meta, res):
                     tainted = True
                 else:
                     viol.append("message %d (%d bytes): server->client %s" % (k, ln, s2c))
-            elif trig and need >= 0 and ln > 0:
-                pass
+            if trig:
+                tainted = True       # the cut-off remainder stays in zlib's pending buffer and leads the next message
             if c2s != "ok":
                 viol.append("message %d (%d bytes): client->server %s" % (k, ln, c2s))
         else:
@@ -615,6 +615,7 @@ def run(ctx, out):
     open_f37 = any(f.get("id") == "F37" for f in C.open_findings("C19"))
     traces = evals = 0
     nontrivial = set()
+    f37_replay = False
 
     # ------------------------------------------------------------------ 0. regression replays of fixed findings
     for f in C.known_findings("C19"):
@@ -631,7 +632,7 @@ def run(ctx, out):
                 lens = [0 if w == "-" else len(w) // 2 for w in l.split()[4:]]
                 v, kn, _ = eval_rt(l, {"lens": lens}, r)
                 if kn and f.get("status") == "open":
-                    out.known_finding("%s %s" % (f["id"], f.get("what", "")[:160]))
+                    f37_replay = True
                 elif kn and not open_f37:
                     bad = "F37 behaviour without an open finding"
                 if v:
@@ -795,9 +796,10 @@ def run(ctx, out):
                 v.append("websocket_compress fails on a payload whose deflate output exceeds 2*len (F37) and no open finding lists it")
         if v:
             rbad.append((l, meta, r, v))
-    if f37_seen and open_f37:
+    if (f37_seen or f37_replay) and open_f37:
         out.known_finding("F37 websocket_compress offers zlib 2*len bytes: payloads of <= 5 bytes (some of 6, the empty one) are "
-                          "truncated, read outside dest, or answered -1 (%d scenarios in this run)" % f37_seen)
+                          "truncated, read outside dest, or answered -1 (directed replay %s; %d generated scenarios inside the trigger)"
+                          % ("reproduces" if f37_replay else "does not reproduce", f37_seen))
     for (l, meta, r, v) in rbad[:3]:
         # shrink: single message, shorter payload
         w = l.split()
